@@ -188,6 +188,15 @@ class C06(Check):
     def extra_log(self, world, run, res):
         return [(p["step"], p["kind"], p["stmt"], p.get("found")) for p in world.evaluated]
 
+    def post_batch(self, tier, seed):
+        """Validate the crash stub against real process death (forked child, SIGKILL / os._exit at
+        statement k, parent reopens the child's real file).  Disagreement = harness error."""
+        from sim import selftest
+
+        rc, compared, bad = selftest.crashstub(nruns=16 if tier == "quick" else 300, kills_per_run=4 if tier == "quick" else 8, seed=seed)
+        errs = ["crash stub unfaithful: %d of %d real kills disagree with the snapshot stub" % (bad, compared)] if bad else []
+        return errs, {"traces_validated_against_impl": compared, "real_process_deaths_compared_with_stub": compared, "stub_vs_real_disagreements": bad}
+
     def minimise_prepare(self, run):
         return dict(run, density=1.0)
 
